@@ -87,6 +87,7 @@ func snap(s *eval.State, maxLen int) snapshot {
 // compareRestored: every saved binding of prev is back in s; nothing else appeared.
 func compareRestored(c *Ctx, sc sessCase, rp, tag string, prev snapshot, s *eval.State, loadErr string) {
 	got := snap(s, sc.maxLen)
+	nf0 := totalFails()
 	var names []string
 	for n := range prev.vals {
 		names = append(names, n)
@@ -134,8 +135,9 @@ func compareRestored(c *Ctx, sc sessCase, rp, tag string, prev snapshot, s *eval
 			failf(c, sig("binding-added"), rp, fmt.Sprintf("%s: %s = %s", tag, n, canonShort(got.vals[n])))
 		}
 	}
-	// saving what was restored gives the same file
-	if !bytes.Equal(got.bytes, prev.bytes) {
+	// saving what was restored gives the same file (when a binding already failed above, the different file is its
+	// consequence and is not reported a second time)
+	if !bytes.Equal(got.bytes, prev.bytes) && totalFails() == nf0 {
 		failf(c, sig("second-save-differs"), rp, fmt.Sprintf("%s: %q then %q", tag, short(string(prev.bytes)), short(string(got.bytes))))
 	}
 }
@@ -318,7 +320,31 @@ func (x *gen) aliasCase() sessCase {
 	calls := []string{al + "(3)"}
 	var st []string
 	kind := ""
-	switch x.intn(8) {
+	switch x.intn(13) {
+	case 8, 9:
+		// the name is rebound to ANOTHER NAMED function, with exactly the same text or a different one
+		other := x.pickName([]string{"b", "oth", "zf"})
+		ob := body1
+		kind = "alias-name-rebound-to-named-function-same-text"
+		if x.intn(2) == 0 {
+			ob, kind = body2, "alias-name-rebound-to-named-function"
+		}
+		st = []string{def1, al + " = " + fn, "func " + other + "(x){" + ob + "}", fn + " = " + other}
+		calls = append(calls, fn+"(3)", other+"(3)")
+	case 10:
+		// a chain: k=a; a=b; b=k
+		other := x.pickName([]string{"b", "oth", "zf"})
+		ob := []string{body1, body2}[x.intn(2)]
+		kind, st = "alias-chain", []string{def1, al + " = " + fn, "func " + other + "(x){" + ob + "}", fn + " = " + other, other + " = " + al}
+		calls = append(calls, fn+"(3)", other+"(3)")
+	case 11:
+		// aliases inside containers, the function still bound to its name
+		kind, st = "alias-in-container", []string{def1, "cc = [" + fn + ", {\"f\": " + fn + "}]", al + " = " + fn}
+		calls = append(calls, fn+"(3)", "cc[0](3)", "cc[1].f(3)")
+	case 12:
+		// a container holding a named function whose name was redefined since
+		kind, st = "alias-in-container-name-redefined", []string{def1, "cc = [" + fn + ", {\"f\": " + fn + "}]", def2}
+		calls = append(calls, fn+"(3)", "cc[0](3)", "cc[1].f(3)")
 	case 7:
 		// the old version calls itself by name: inside a named function its own name denotes the function itself
 		rec := "func " + fn + "(x){if x<=0 {0} else {" + fn + "(x-1)+1}}"
@@ -560,6 +586,11 @@ var sessionCorpus = []sessCase{
 	{"alias-name-rebound-to-data", 0, [][]string{{"func f(x){1}", "k = f", "f = 5"}}, []string{"k(0)"}},
 	{"alias-intact", 0, [][]string{{"func g(a){a+1}", "h = g", "b = g"}}, []string{"g(1)", "h(1)", "b(1)"}},
 	{"alias-of-alias", 0, [][]string{{"func g(a){a+1}", "h = g", "j = h"}, {"func g(a){a+2}"}}, []string{"g(1)", "h(1)", "j(1)"}},
+	{"alias-name-rebound-to-named-function-same-text", 0, [][]string{{"func a(x){x+1}", "k = a", "func b(x){x+1}", "a = b"}}, []string{"a(1)", "b(1)", "k(1)"}},
+	{"alias-name-rebound-to-named-function", 4000, [][]string{{"func a(x){x+1}", "k = a", "func b(x){x+2}", "a = b"}}, []string{"a(1)", "b(1)", "k(1)"}},
+	{"alias-chain", 0, [][]string{{"func a(x){x+1}", "k = a", "func b(x){x+1}", "a = b", "b = k"}}, []string{"a(1)", "b(1)", "k(1)"}},
+	{"alias-in-container", 0, [][]string{{"func a(x){x+1}", "cc = [a, {\"f\": a}]", "k = a"}}, []string{"a(1)", "cc[0](1)", "cc[1].f(1)"}},
+	{"alias-in-container-name-redefined", 0, [][]string{{"func a(x){x+1}", "cc = [a, {\"f\": a}]", "func a(x){x+2}"}}, []string{"a(1)", "cc[0](1)"}},
 	{"alias-of-recursive-function-name-redefined", 0, [][]string{{"func f(n){if n<=0 {0} else {f(n-1)+1}}", "k = f", "func f(n){100}"}}, []string{"k(3)", "f(3)"}},
 	// globals changed only from inside a function
 	{"global-written-from-function", 4000, [][]string{{"x = 1", "func setx(){x=5}"}, {"setx()"}}, nil},
